@@ -3,16 +3,18 @@ import TR.Lemmas.Hedge
 # C12 — hedge: bounded attempts, spaced starts, first success wins, all-failed only when all failed
 
 Quantification of every theorem: every `max_hedged_attempts ≥ 1` (the builder clamps to ≥ 1),
-every delay function `delay : Nat → Nat` (fixed, zero, per-attempt), every list of operations
-(any number of concurrent requests; every arrival, poll, cancellation and time-advance order;
-every observed completion order of simultaneously due attempts — the theorems do not even need
-the order to be an allowed one), every per-attempt script of latencies and outcomes
-(ok / error / panic / never).
+every delay function `delay : Nat → Nat` in **microseconds** (fixed, zero, per-attempt, below one
+millisecond or not), every list of operations (any number of concurrent requests; every arrival,
+poll, cancellation and time-advance order; every observed order of what simultaneously elapsed
+timers set off — the theorems do not even need the order to be an allowed one), every per-attempt
+script of latencies and outcomes (ok / error / panic / never), every readiness plan of the fresh
+clones the hedges run on (ready at once, after a while, never).
 
 `(c, cl) ∈ (run cfg ops).calls` reads "`cl` is the record of request `c` after `ops`";
-`cl.attempts` are the attempts started so far (newest first) with their start instant, the
-instant their inner call is due, their scripted outcome and the instant their completion was
-observed; `cl.result` is the instant and value of the result delivered to the caller.
+`cl.attempts` are the attempts started so far (newest first) with their start instant (ms; the
+instant the attempt's task was spawned), whether the task still waits for its clone to be ready
+(`wait`), the instant their inner call is due, their scripted outcome and the instant their
+completion was observed; `cl.result` is the instant and value of the result delivered to the caller.
 -/
 namespace TR.Props.C12
 open TR TR.Hedge
@@ -28,14 +30,26 @@ theorem starts_spaced (cfg : Cfg) (hmax : 1 ≤ cfg.max) (ops : List Op) (c : Na
     (h : (c, cl) ∈ (run cfg ops).calls) : SpacedT cfg (starts cl) :=
   (inv_reachable cfg hmax ops _ h).st.spaced
 
-/-- Spacing by attempt number: attempt `n + 1` is started no earlier than `delay (n + 1)` after
-attempt `n` was started; when `delay 1 = 0` (parallel mode, chosen once, as in the code) all
-attempts are started at one instant. -/
+/-- Spacing by attempt number (instants in ms, delays in µs): attempt `n + 1` is started no earlier
+than `delay (n + 1)` after attempt `n` was started; only when `delay 1 = 0` — the duration itself is
+zero, not merely shorter than the timer's resolution — (parallel mode, chosen once, as in the code)
+all attempts are started at one instant. -/
 theorem starts_spaced_indexed (cfg : Cfg) (hmax : 1 ≤ cfg.max) (ops : List Op) (c : Nat) (cl : Call)
     (h : (c, cl) ∈ (run cfg ops).calls) (n : Nat) (hn : n + 1 < cl.attempts.length) :
     if cfg.delay 1 = 0 then (startsAsc cl).getD (n + 1) 0 = (startsAsc cl).getD n 0
-    else (startsAsc cl).getD n 0 + cfg.delay (n + 1) ≤ (startsAsc cl).getD (n + 1) 0 :=
+    else (startsAsc cl).getD n 0 * 1000 + cfg.delay (n + 1) ≤ (startsAsc cl).getD (n + 1) 0 * 1000 :=
   spaced_asc cfg (starts cl) (starts_spaced cfg hmax ops c cl h) n (by rwa [← length_eq_starts])
+
+/-- A positive delay, however short (below the timer's resolution included), is a delay: outside
+parallel mode (`delay 1 ≠ 0`) an attempt whose configured delay is positive is started strictly
+later than its predecessor. -/
+theorem positive_delay_separates (cfg : Cfg) (hmax : 1 ≤ cfg.max) (ops : List Op) (c : Nat) (cl : Call)
+    (h : (c, cl) ∈ (run cfg ops).calls) (n : Nat) (hn : n + 1 < cl.attempts.length)
+    (h1 : cfg.delay 1 ≠ 0) (hd : 0 < cfg.delay (n + 1)) :
+    (startsAsc cl).getD n 0 < (startsAsc cl).getD (n + 1) 0 := by
+  have := starts_spaced_indexed cfg hmax ops c cl h n hn
+  rw [if_neg h1] at this
+  omega
 
 /-- No attempt is started in the future, and every observed completion is at or after the instant
 the inner call was due (`startAt + latency`) — the ghost instants mean what they say. -/
@@ -136,12 +150,13 @@ theorem success_is_queued (cfg : Cfg) (hmax : 1 ≤ cfg.max) (ops : List Op) (c 
   exact ⟨hi.okIn hl, hi.sorted, hi.recvdErr hl⟩
 
 /-- The ghost list of attempts is the event log: for every request id, the serials of its
-`inner_call` events in the log, in order, are exactly the serials of its attempts in start order
-(nothing else ever calls the inner service on its behalf). -/
+`inner_call` events in the log are exactly the serials of its attempts that have called the inner
+service (nothing else ever calls the inner service on its behalf). A permutation: a hedge whose
+clone needs a while to become ready may call after a later hedge whose clone is ready at once. -/
 theorem log_matches_attempts (cfg : Cfg) (ops : List Op) (c : Nat) :
-    callsOf c (run cfg ops).log = match lookup (run cfg ops).calls c with
+    (callsOf c (run cfg ops).log).Perm (match lookup (run cfg ops).calls c with
       | some cl => serialsAsc cl
-      | none => [] :=
+      | none => []) :=
   loginv_reachable cfg ops c
 
 /-- Request ids are unique, so "`cl` is the record of request `c`" can be read either way. -/
@@ -153,16 +168,19 @@ theorem record_unique (cfg : Cfg) (ops : List Op) (c : Nat) (cl : Call) :
 `max_hedged_attempts` `inner_call` events carry the id of any one request. -/
 theorem starts_bounded_trace (cfg : Cfg) (hmax : 1 ≤ cfg.max) (ops : List Op) (c : Nat) :
     (callsOf c (run cfg ops).log).length ≤ cfg.max := by
-  rw [log_matches_attempts]
+  rw [(log_matches_attempts cfg ops c).length_eq]
   cases hl : lookup (run cfg ops).calls c with
   | none => exact Nat.zero_le _
   | some cl =>
     have := starts_bounded cfg hmax ops c cl ((record_unique cfg ops c cl).mpr hl)
-    simpa [serialsAsc] using this
+    have hle : (cl.attempts.filter isCalled).length ≤ cl.attempts.length := List.length_filter_le _ _
+    simp only [serialsAsc, List.length_reverse, List.length_map]
+    omega
 
 /-! ## non-vacuity: concrete histories -/
 
-def fixed (mx d : Nat) : Cfg := { max := mx, delay := fun _ => d }
+/-- fixed delay of `d` milliseconds -/
+def fixed (mx d : Nat) : Cfg := { max := mx, delay := fun _ => d * 1000 }
 
 /-- The witness of the defect that was repaired (delay 10 ms, 2 attempts, primary ok at 100 ms, the
 hedge fails at once): the call stays pending after the hedge's error and resolves with the
@@ -200,5 +218,36 @@ example :
       = some (true, [1, 0], some 0) ∧
     (lookup (run (fixed 3 10) (ops ++ [.poll 1])).calls 1).map (·.result) = some (some (30, .ok 0)) ∧
     callsOf 1 (run (fixed 3 10) ops).log = [0, 1] := by decide
+
+/-- A first delay below one millisecond is a delay, not parallel mode: per-attempt delays 500 µs,
+then 400 ms; the first hedge is started when the (millisecond) timer fires, at 1 ms, the second one
+400 ms after it — not all three at once. -/
+example :
+    let cfg : Cfg := { max := 3, delay := fun n => if n = 1 then 500 else 400000 }
+    let ops := [Op.arrive 1 [⟨700, .ok⟩, ⟨700, .ok⟩, ⟨700, .ok⟩], .poll 1, .poll 1, .adv 1 [], .poll 1,
+                .adv 399 [], .poll 1, .adv 1 [], .poll 1]
+    (lookup (run cfg ops).calls 1).map (fun cl => (cl.phase, starts cl)) = some (.latency, [401, 1, 0]) := by
+  decide
+
+/-- `first_success_at_once` with a hedge whose clone is not ready: delay 10 ms, the hedge's clone needs
+50 ms, the primary succeeds at 30 ms. The hedge is started at 10 ms (it counts, it waits), the
+primary's success is queued at 30 ms while the clone is still warming up, and the poll at 30 ms
+resolves the call with it; the clone becomes ready at 60 ms and the detached task calls then. -/
+example :
+    let ops := [Op.arrive 1 [⟨30, .ok⟩, ⟨5, .ok⟩] [some 50], .poll 1, .adv 10 [], .poll 1, .adv 20 [0]]
+    (lookup (run (fixed 2 10) ops).calls 1).map
+        (fun cl => (live cl.phase, cl.attempts.map (fun a => (a.idx, a.startAt, a.wait)), cl.chan.map (·.k)))
+      = some (true, [(1, 10, .till 60), (0, 0, .no)], [0]) ∧
+    (lookup (run (fixed 2 10) (ops ++ [.poll 1])).calls 1).map (·.result) = some (some (30, .ok 0)) ∧
+    callsOf 1 (run (fixed 2 10) (ops ++ [.poll 1, .adv 40 [.rdy 1 1]])).log = [0, 1] := by decide
+
+/-- Calls need not come in attempt order (why `log_matches_attempts` is a permutation): hedge 1 waits
+20 ms for its clone, hedge 2's clone is ready at once, so attempt 2 makes the second inner call
+(serial 1, second script step) and attempt 1 the third. -/
+example :
+    let ops := [Op.arrive 1 [⟨100, .ok⟩, ⟨7, .err 1⟩, ⟨3, .ok⟩] [some 20, some 0], .poll 1, .adv 10 [], .poll 1,
+                .adv 10 [], .poll 1, .adv 10 [.done 1, .rdy 1 1]]
+    (lookup (run (fixed 3 10) ops).calls 1).map (fun cl => cl.attempts.map (fun a => (a.idx, a.k, a.startAt, a.out)))
+      = some [(2, 1, 20, .err 1), (1, 2, 10, .ok), (0, 0, 0, .ok)] := by decide
 
 end TR.Props.C12
